@@ -4,8 +4,8 @@ import hirq, anchors, absx, sem, driver
 
 EXPLANATION = ("L1 reply senders are owned only by the driver's two routing maps, the request tuple and the LdapOp::Search payload; the "
                "driver loop takes the driver by value, so every exit drops them; no mem::forget / ManuallyDrop / Box::leak / into_raw in "
-               "the workspace; L2 in the driver loop the closed-channel / end-of-stream alternative of the request, misc and response "
-               "arms leaves the loop, a stream error and a failed socket write return Err, and an arm awaits nothing but the driver's own transport (never a channel send, lock or timer whose completion is up to a consumer); L3 on the caller side every send / recv / await "
+               "the workspace; L2 / L11 what the select! of the driver loop does with the answer that says a source has ended - None from the request / misc channel, None from the transport's stream - is read off the macro's expansion (the branch's piece of the poll closure interpreted with the future's answer fixed to that value): it is handed to the arm (a refutable branch pattern that does not match None makes the macro swallow it: the branch is only switched off for that call and `else` runs only when every branch is), and every path of the arm's handler on it leaves the loop; "
+               "a stream error (Some(Err)) is handed to the response arm and every path on it returns Err, as does every path of the request arm on which the socket write failed, and an arm awaits nothing but the driver's own transport (never a channel send, lock or timer whose completion is up to a consumer); L3 on the caller side every send / recv / await "
                "on a channel is propagated with `?`, matched into an Err return or (finish only) logged - never unwrapped, never retried (the stream's stepping functions are evaluated from the values of the stream state "
                "in which their one referencing shim reaches the call, so a branch on an excluded state is not an answer to a closed channel); "
                "L4 the request send (with `?`) precedes every await in the operation issue point; L5 the Unbind arm shuts the socket down "
